@@ -28,13 +28,19 @@ type AuthRequest struct {
 	AuthTime                  time.Time
 	Code                      string
 	Tenant                    string // the issuer the request was made under ("" unless Store.MultiTenant)
+	Audience                  []string // deep5-C07: the granted audience (Store.GrantAudience); nil: the client itself
 }
 
 var _ op.AuthRequest = (*AuthRequest)(nil)
 
 func (a *AuthRequest) GetID() string                         { return a.ID }
 func (a *AuthRequest) GetACR() string                        { return "" }
-func (a *AuthRequest) GetAudience() []string                 { return []string{a.ClientID} }
+func (a *AuthRequest) GetAudience() []string {
+	if a.Audience != nil {
+		return a.Audience // the storage's own slice
+	}
+	return []string{a.ClientID}
+}
 func (a *AuthRequest) GetAuthTime() time.Time                { return a.AuthTime }
 func (a *AuthRequest) GetClientID() string                   { return a.ClientID }
 func (a *AuthRequest) GetCodeChallenge() *oidc.CodeChallenge { return a.CodeChallenge }
@@ -79,6 +85,9 @@ func (s *Store) CreateAuthRequest(ctx context.Context, r *oidc.AuthRequest, user
 		LoginHint:    r.LoginHint,
 		Subject:      userID,
 		Tenant:       s.tenant(ctx),
+	}
+	if s.GrantAudience != nil {
+		a.Audience = s.keep(slices.Clone(s.GrantAudience(r.ClientID)))
 	}
 	if r.CodeChallenge != "" {
 		a.CodeChallenge = &oidc.CodeChallenge{Challenge: r.CodeChallenge, Method: r.CodeChallengeMethod}
